@@ -109,16 +109,13 @@ def dot : List Int → List Int → Int
 /-- the index `s->t_off + (s->Ik & 7)` of the two codeword tables -/
 def codeIndex (tOff ik : Nat) : Nat := tOff + ik % 8
 
-/-- `nms_adpcm_update` -/
-def update (s : St) : St :=
-  -- scale factor
+/-- the scale factor part of `nms_adpcm_update`: decay, add the codeword's step, clamp to [2171, 20480] -/
+def nextYl (s : St) : Int :=
   let yl := wrapS 16 (asr (s.yl * 0xf8) 8 + tableScaleFactorStep.getD (codeIndex s.tOff s.ik) 0)
-  let yl := if yl < 2171 then 2171 else if yl > 20480 then 20480 else yl
-  let y := antilog yl
-  -- zero predictor coefficients
-  let dq0 := s.dq.headD 0
-  let b := List.zipWith (updB dq0) s.b s.dq.tail
-  -- pole predictor coefficients
+  if yl < 2171 then 2171 else if yl > 20480 then 20480 else yl
+
+/-- the pole predictor part of `nms_adpcm_update`: (a[0], a[1]) -/
+def nextA (s : St) : Int × Int :=
   let fa1 := wrapS 16 (asr s.a0 5)
   let fa1 := if fa1 < -256 then -256 else if fa1 > 256 then 256 else fa1
   let a0 := wrapS 16 (asr (s.a0 * 0xff) 8)
@@ -132,13 +129,20 @@ def update (s : St) : St :=
   let a1 := if a1 < -12288 then -12288 else if a1 > 12288 then 12288 else a1
   let a1ul := wrapS 16 (15360 - a1)
   let a0 := if a0 ≥ a1ul then a1ul else if a0 < wrapS 16 (- a1ul) then wrapS 16 (- a1ul) else a0
+  (a0, a1)
+
+/-- `nms_adpcm_update` -/
+def update (s : St) : St :=
+  let yl := nextYl s
+  -- zero predictor coefficients
+  let dq0 := s.dq.headD 0
+  let b := List.zipWith (updB dq0) s.b s.dq.tail
+  let a := nextA s
   -- zero predictor estimate, rotate the past deltas
   let sez0 := dot (s.dq.take 6) b
-  let dq := dq0 :: s.dq.take 6
-  let sez := wrapS 16 (asr sez0 14)
-  let se0 := sez0 + a0 * s.sr0 + a1 * s.sr1
-  let se := wrapS 16 (asr se0 14)
-  { s with yl := yl, y := y, a0 := a0, a1 := a1, b := b, dq := dq, sez := sez, se := se,
+  let se0 := sez0 + a.1 * s.sr0 + a.2 * s.sr1
+  { s with yl := yl, y := antilog yl, a0 := a.1, a1 := a.2, b := b, dq := dq0 :: s.dq.take 6,
+           sez := wrapS 16 (asr sez0 14), se := wrapS 16 (asr se0 14),
            sr1 := s.sr0, p2 := s.p1, p1 := s.p0 }
 
 /-- `nms_adpcm_reconstruct_sample` (I is a `uint8_t`) -/
